@@ -87,12 +87,8 @@ def rule_getmsg(ctx):
         dom = {k: [v] for k, v in hts.items()}
         dom.update({"self.version": [(3, 3), (3, 4)], "subType": [1, 2, 5, 11, 20, 24],
                     "self._defragmenter.is_empty()": [True, False]})
-        check_cond(ctx, R, fi, effal[0].ast, effal[0].expr, dom,
-                   lambda e: e["self.version"] > (3, 3) and e["subType"] in (1, 2, 5, 20, 24)
-                   and not e["self._defragmenter.is_empty()"],
-                   "TLS 1.3 key-change alignment gate",
-                   "ClientHello, EndOfEarlyData, ServerHello, Finished and KeyUpdate must end their record "
-                   "in TLS 1.3 (no data of the next epoch may share the record)")
+        # the meaning of the gate is decided by the C06.RECORD-GATES row (which follows locals the
+        # condition may be built from); here: it is on every dispatch path
         must_pass(ctx, R, fi, g, rec, hs_yields, effal, "alignment gate on every handshake dispatch path",
                   "a handshake message can be dispatched without the key-change alignment check", cut=cut)
     else:
@@ -100,12 +96,17 @@ def rule_getmsg(ctx):
     # is_empty means: every buffer empty
     ie = ctx.index.func("defragmenter:Defragmenter.is_empty")
     ret = [x for x in own_nodes(ie.node) if isinstance(x, ast.Return)]
-    # decided structurally: the verdict may depend on nothing but the emptiness of every buffer
-    attrs = {x.attr for x in ast.walk(ie.node) if isinstance(x, ast.Attribute)
-             and isinstance(x.value, ast.Name) and x.value.id == "self"}
-    called = {call_name(c) for c in calls_in(ie.node)}
-    ok = len(ret) >= 1 and attrs == {"buffers"} and bool(called & {"all", "any"}) and \
-        called <= {"all", "any", "values", "len", "bool"}
+    # decided by evaluating the method's body over small buffer tables (nothing is run)
+    from ..condeval import _call, Rec, Unknown
+    ok = True
+    try:
+        for bufs in ({}, {20: b"", 21: b"", 22: b""}, {20: b"", 21: b"x", 22: b""}, {20: b"\x01", 21: b"", 22: b""},
+                     {20: b"", 21: b"", 22: b"\x0b\x00"}, {20: b"a", 21: b"b", 22: b"c"}):
+            got = _call(ie, [Rec(buffers=bufs)], {"__index__": ctx.index})
+            if bool(got) != all(not v for v in bufs.values()):
+                ok = False
+    except (Unknown, TypeError, AttributeError):
+        ok = False
     ctx.check(R, ok, ie.qname, "is_empty() is true only when every buffer is empty",
               "Defragmenter.is_empty must report pending bytes of any content type (a partial message "
               "counts); it returns `%s`" % (norm(ret[0].value) if ret else "?"), ie.loc())
@@ -394,6 +395,18 @@ def rule_record_gates(ctx):
              and bool(e["self._defragmenter.buffers[ContentType.handshake]"]),
              when=lambda e: e["self.version"] > (3, 3) or e["recordHeader.type"] == 22,
              msg="TLS 1.3 handshake messages must not be interleaved with records of another type"),
+        dict(what="TLS 1.3 key-change messages end their record, for either role",
+             dom=d(CT, {"HandshakeType.client_hello": [1], "HandshakeType.end_of_early_data": [5],
+                        "HandshakeType.server_hello": [2], "HandshakeType.finished": [20],
+                        "HandshakeType.key_update": [24], "self.version": [(3, 3), (3, 4)],
+                        "subType": [1, 2, 5, 11, 20, 24], "self._defragmenter.is_empty()": [True, False],
+                        "recordHeader.type": [22], "recordHeader.ssl2": [False], "subType not in secondaryType": [False],
+                        "self._client": [True, False], "self._defragmenter.buffers[ContentType.handshake]": [b""],
+                        "self._middlebox_compat_mode": [False]}),
+             abort=lambda e: e["self.version"] > (3, 3) and e["subType"] in (1, 2, 5, 20, 24)
+             and not e["self._defragmenter.is_empty()"],
+             msg="ClientHello, EndOfEarlyData, ServerHello, Finished and KeyUpdate must end their record in TLS 1.3 "
+                 "whichever side receives them (no data of the next epoch may share the record)"),
     ])
     for fn in ("_handshakeServerAsyncHelper", "_serverGetClientHello"):
         spec_rows(ctx, R, TLSCONN + fn, [
@@ -415,4 +428,5 @@ RULES = [
     ("C06.SUITE", "quick", rule_suite_messages),
     ("C06.CONSUME", "quick", rule_consume_c06),
     ("C06.AUTH13", "quick", borrowed("c05", "rule_auth13", "C05.", "C06.")),
+    ("C06.EARLY", "quick", borrowed("c02", "rule_early_snapshot", "C02.EARLY", "C06.EARLY")),
 ]
